@@ -391,7 +391,7 @@ non-trivial = a pause >= 500 ms inside a line, a line > 64 KiB, binary data, or 
     let n = ctx.n(3000, 200_000);
     ctx.drive("inproc", || strategy(4, 10), n, check_inproc);
     ctx.drive_all("golden-cli", golden(), "golden regression cases (real time)", check_cli);
-    let n2 = ctx.n(80, 1500);
+    let n2 = ctx.n(80, 500);
     ctx.drive("cli", || strategy(3, 6), n2, check_cli);
 }
 
